@@ -23,8 +23,9 @@ import ast
 import itertools
 
 from sa.core import rule, AnalysisError
-from sa.pyindex import get_module
+from sa.pyindex import get_module, src
 from rules import _minieval as ME
+from rules import _util_c16c19 as U
 
 VU = "pytype/vm_utils.py"
 DISPATCH = "_call_binop_on_bindings"
@@ -201,10 +202,103 @@ def _interp(mod, fn):
   return ME.Interp(fn, resolver=resolver)
 
 
+def _host_calls(classes, log, xn, yn):
+  """The methods the host interpreter calls, in order, for `X() - Y()` when every
+  method declines (returns NotImplemented)."""
+  del log[:]
+  try:
+    classes[xn]() - classes[yn]()
+  except TypeError:
+    pass
+  return list(log)
+
+
+def option_paths(mod):
+  """(dispatch function, its operand parameters, [(path, [(left, right, name)])]):
+  the list of (left, right, method) options the dispatch loop walks, per path."""
+  fn = mod.func(DISPATCH)
+  params = [a.arg for a in fn.args.args]
+  if len(params) < 4:
+    raise AnalysisError(f"{DISPATCH}: signature changed")
+  loops = [st for st in fn.body if isinstance(st, ast.For) and any(
+      isinstance(c, ast.Call) and isinstance(c.func, ast.Attribute)
+      and c.func.attr == "get_attribute" for c in ast.walk(st))]
+  if len(loops) != 1:
+    raise AnalysisError(f"{DISPATCH}: the loop that looks the operator methods up was not found")
+  try:
+    results = U.ListPaths(mod).at_loop(fn, loops[0])
+  except U.NotUnderstood as e:
+    raise AnalysisError(f"{DISPATCH}: the list of operand orders is built in a way that is "
+                        f"not understood: {e}") from e
+  out = []
+  for path, val in results:
+    if val[0] != "list" or not all(it[0] == "tuple" and len(it[1]) == 3 for it in val[1]):
+      raise AnalysisError(f"{DISPATCH}: the dispatch loop does not walk a list of "
+                          f"(left, right, method) tuples on the path {list(path)}")
+    out.append((path, [it[1] for it in val[1]]))
+  if not out:
+    raise AnalysisError(f"{DISPATCH}: no path reaches the dispatch loop")
+  return fn, params, out
+
+
 def evaluate(ctx, worlds, single_method_pairs=False):
+  """Compare, for every ordered pair of classes of every world, the methods
+  pytype's dispatch would look up (the option list of _call_binop_on_bindings,
+  its path conditions - including the call of the predicate - evaluated on the
+  class model) with the methods the host CPython calls."""
   mod = get_module(ctx, VU)
-  fn, (p_sub, p_sup, p_attr) = find_predicate(mod)
+  pred, _ = find_predicate(mod)
+  fn, params, paths = option_paths(mod)
+  name_p, x_p, y_p = params[1], params[2], params[3]
+  rnames = [n.targets[0].id for n in fn.body if isinstance(n, ast.Assign)
+            and len(n.targets) == 1 and isinstance(n.targets[0], ast.Name)
+            and isinstance(n.value, ast.Call) and isinstance(n.value.func, ast.Attribute)
+            and n.value.func.attr == "get" and "REVERSE" in src(n.value.func.value)]
+  if len(set(rnames)) != 1:
+    raise AnalysisError(f"{DISPATCH}: the local holding the reflected method name was not identified")
+  r_v = rnames[0]
   it = _interp(mod, fn)
+  conds = {}
+  for path, _ in paths:
+    for text, _pol in path:
+      if text not in conds:
+        try:
+          conds[text] = ast.parse(text, mode="eval").body
+        except SyntaxError as e:
+          raise AnalysisError(f"{DISPATCH}: path condition `{text}` not understood") from e
+
+  # names a condition may mention: the dispatch parameters, the reflected-name
+  # local, module-level names, and locals bound once at the top of the function
+  # (their defining expression is evaluated on demand)
+  known = set(params) | {r_v} | set(mod.functions) | set(mod.imports) | set(mod.assigns) | \
+      set(mod.classes) | {"isinstance", "len", "getattr", "bool", "any", "all"}
+  local_defs = {}
+  for st in fn.body:
+    if isinstance(st, ast.Assign) and len(st.targets) == 1 and isinstance(st.targets[0], ast.Name):
+      nm = st.targets[0].id
+      n_stores = sum(1 for n in ast.walk(fn) if isinstance(n, ast.Name) and n.id == nm
+                     and isinstance(n.ctx, ast.Store))
+      if n_stores == 1 and nm not in known:
+        local_defs[nm] = st.value
+
+  def free_names(e):
+    bound = {n.id for n in ast.walk(e) if isinstance(n, ast.Name) and isinstance(n.ctx, ast.Store)}
+    out = set()
+    for n in ast.walk(e):
+      if isinstance(n, ast.Name) and isinstance(n.ctx, ast.Load) and n.id not in known \
+          and n.id not in bound:
+        if n.id not in local_defs:
+          raise AnalysisError(f"{DISPATCH}: the path condition `{src(e)[:60]}` reads `{n.id}`, "
+                              "which is neither an operand, a module-level name nor a local "
+                              "bound once at the top of the function")
+        out.add(n.id)
+        out |= free_names(local_defs[n.id])
+    return out
+
+  def operand(cls):
+    inst = ME.Obj(("abstract.Instance", "abstract.SimpleValue", "abstract.BaseValue"), {"cls": cls})
+    return ME.Obj(("cfg.Binding",), {"data": inst})
+
   results = {}
   for wname, gen in worlds.items():
     for spec in gen():
@@ -213,39 +307,69 @@ def evaluate(ctx, worlds, single_method_pairs=False):
         model = _Model(spec, host, lazy)
         names = [n for n, _, _ in spec]
         for xn, yn in itertools.product(names, repeat=2):
-          want = _host_first(host, log, xn, yn)
-          try:
-            ov = it.call({p_sub: model.objs[yn], p_sup: model.objs[xn], p_attr: REFL})
-          except ME.Outside as e:
-            raise AnalysisError(f"{fn.name}: outside the evaluated fragment: {e}") from e
-          except ME.Raised as e:
-            raise AnalysisError(f"{fn.name}: raises {e} on the class model "
-                                f"(x={xn}, y={yn}, {spec})") from e
-          except ME.Diverged as e:
-            raise AnalysisError(f"{fn.name}: does not terminate on the class model") from e
-          if isinstance(ov, (ME.Obj, ME.Sym)):
-            raise AnalysisError(f"{fn.name}: returns an opaque value {ov!r}")
+          want = _host_calls(host, log, xn, yn)
+          env = {name_p: FWD, r_v: REFL, x_p: operand(model.objs[xn]), y_p: operand(model.objs[yn])}
+          truth = {}
+
+          def holds(text):
+            if text not in truth:
+              it.steps = 0
+              try:
+                for nm in sorted(free_names(conds[text])):
+                  if nm not in env:
+                    env[nm] = it.expr(local_defs[nm], dict(env))
+                truth[text] = ME.Interp.truth(it.expr(conds[text], dict(env)))
+              except ME.Outside as e:
+                raise AnalysisError(f"{DISPATCH}: `{text}` is outside the evaluated fragment: {e}") from e
+              except ME.Raised as e:
+                raise AnalysisError(f"{DISPATCH}: `{text}` raises {e} on the class model "
+                                    f"(x={xn}, y={yn}, {spec})") from e
+              except ME.Diverged as e:
+                raise AnalysisError(f"{DISPATCH}: `{text}` does not terminate on the class model") from e
+            return truth[text]
+
+          taken = []
+          for path, order in paths:
+            ok = True
+            for text, pol in path:     # in evaluation order: stop at the first mismatch
+              if holds(text) != pol:
+                ok = False
+                break
+            if ok:
+              taken.append(order)
+          if len(taken) != 1:
+            raise AnalysisError(f"{DISPATCH}: {len(taken)} paths are taken for x={xn}, y={yn} "
+                                "on the class model (expected one)")
+          cls_of = {x_p: xn, y_p: yn}
+          meth_of = {name_p: FWD, r_v: REFL}
+          got = []
+          for left, right, meth in taken[0]:
+            if left not in cls_of or right not in cls_of or meth not in meth_of:
+              raise AnalysisError(f"{DISPATCH}: option ({left}, {right}, {meth}) is not made of "
+                                  "the operand / method-name variables")
+            owner = model.lookup(cls_of[left], meth_of[meth], spec)
+            if owner is not None:
+              got.append((meth_of[meth], owner))
           fwd = model.lookup(xn, FWD, spec)
           refl = model.lookup(yn, REFL, spec)
-          order = [(REFL, refl), (FWD, fwd)] if ov else [(FWD, fwd), (REFL, refl)]
-          got = next((o for o in order if o[1] is not None), None)
           key = (wname, "lazy" if lazy else "eager", xn, yn)
           bad = results.setdefault(key, [])
           if (fwd is None or refl is None) and not single_method_pairs:
-            continue   # the predicate's answer cannot be observed
+            continue   # only one of the two methods exists: the order cannot be observed
           if got != want:
             bad.append({"classes": {n: list(d) for n, _, d in spec},
-                        "predicate": bool(ov), "pytype_first": got, "cpython_first": want})
+                        "options": [list(t) for t in taken[0]],
+                        "pytype_tries": got, "cpython_calls": want})
   for (wname, flav, xn, yn), bad in sorted(results.items()):
     ctx.check(not bad, f"reflected-first:{wname}:{flav}:x={xn},y={yn}", VU, fn.lineno,
-              f"`{xn}() - {yn}()`: with the value `{fn.name}` returns, pytype tries "
-              f"{bad and bad[0]['pytype_first']} first but CPython calls "
-              f"{bad and bad[0]['cpython_first']} first ({len(bad)} class layouts): the "
-              "reflected method goes first only if the right operand's class is a proper "
-              "subclass of the left's and provides another implementation of the reflected "
-              "method than the left operand's class sees; the expression gets the other "
-              "method's result type, so clean statements are flagged and real TypeErrors missed",
-              {"mismatches": bad[:3], "count": len(bad), "predicate": fn.name})
+              f"`{xn}() - {yn}()`: pytype looks up {bad and bad[0]['pytype_tries']} but CPython "
+              f"calls {bad and bad[0]['cpython_calls']} ({len(bad)} class layouts): the "
+              "reflected method is tried only for operands of different classes, and first only "
+              "if the right operand's class is a proper subclass of the left's and provides "
+              "another implementation of the reflected method than the left operand's class "
+              "sees; otherwise the expression gets the other method's result type (clean "
+              "statements flagged, real TypeErrors missed)",
+              {"mismatches": bad[:3], "count": len(bad), "predicate": pred.name})
 
 
 @rule("R14.22", "C14", floor=64)
@@ -254,123 +378,117 @@ def r14_22(ctx):
   evaluate(ctx, WORLDS)
 
 
-_LOOP_OLD = ("    for cls in subcls.mro:\n"
-             "      if cls == supercls:\n"
-             "        break\n"
-             "      if isinstance(cls, mixin.LazyMembers):\n"
-             "        cls.load_lazy_attribute(attr)\n"
-             "      if (\n"
-             "          isinstance(cls, abstract.SimpleValue)\n"
-             "          and attr in cls.members\n"
-             "          and cls.members[attr].bindings\n"
-             "      ):\n"
-             "        return True\n")
+_PROVIDER = ("def _provider(cls, attr):\n"
+             '  """Returns the first class in cls\'s MRO that defines the attribute."""\n'
+             "  for base in cls.mro:\n"
+             "    if isinstance(base, mixin.LazyMembers):\n"
+             "      base.load_lazy_attribute(attr)\n"
+             "    if (\n"
+             "        isinstance(base, abstract.SimpleValue)\n"
+             "        and attr in base.members\n"
+             "        and base.members[attr].bindings\n"
+             "    ):\n"
+             "      return base\n"
+             "  return None\n")
+_OV_BODY = ("  if subcls and supercls and supercls in subcls.mro:\n"
+            "    subcls = _base(subcls)\n"
+            "    supercls = _base(supercls)\n"
+            "    provider = _provider(subcls, attr)\n"
+            "    return provider is not None and provider != _provider(supercls, attr)\n"
+            "  return False\n")
+_OV_RET = "    return provider is not None and provider != _provider(supercls, attr)\n"
 
 VARIANTS = [
+    # rebased onto the repaired _overrides (D66); the original is patch.orig.diff
     {"name": "seeded-C14-r3m1", "rule": "R14.22", "patch": "seeded/C14-r3m1/patch.diff",
      "expect": "fire"},
-    # the scan never stops at the left operand's class
-    {"name": "overrides-scan-does-not-stop-at-left-class", "rule": "R14.22", "file": VU,
-     "expect": "fire", "old": "      if cls == supercls:\n        break\n      if isinstance(cls, mixin.LazyMembers):",
-     "new": "      if isinstance(cls, mixin.LazyMembers):"},
-    # stops one class too late: the left class's own definition counts as an override
-    {"name": "overrides-scan-includes-left-class", "rule": "R14.22", "file": VU, "expect": "fire",
-     "old": _LOOP_OLD,
-     "new": ("    for cls in subcls.mro:\n"
-             "      if isinstance(cls, mixin.LazyMembers):\n"
-             "        cls.load_lazy_attribute(attr)\n"
-             "      if (\n"
-             "          isinstance(cls, abstract.SimpleValue)\n"
-             "          and attr in cls.members\n"
-             "          and cls.members[attr].bindings\n"
-             "      ):\n"
-             "        return True\n"
-             "      if cls == supercls:\n"
-             "        break\n")},
-    # only the right operand's own class is consulted: an override inherited from an
+    # any provider counts, also the one the left operand's class sees itself
+    {"name": "overrides-any-provider-counts", "rule": "R14.22", "file": VU, "expect": "fire",
+     "old": _OV_RET, "new": "    return provider is not None\n"},
+    # the left class's own definition counts as an override
+    {"name": "overrides-left-class-definition-counts", "rule": "R14.22", "file": VU,
+     "expect": "fire", "old": _OV_RET,
+     "new": ("    return provider is not None and (\n"
+             "        provider == supercls or provider != _provider(supercls, attr)\n"
+             "    )\n")},
+    # only the classes' own definitions are consulted: an override inherited from an
     # intermediate class is missed
-    {"name": "overrides-looks-at-own-class-only", "rule": "R14.22", "file": VU, "expect": "fire",
-     "old": "    for cls in subcls.mro:\n      if cls == supercls:",
-     "new": "    for cls in subcls.mro[:1]:\n      if cls == supercls:"},
+    {"name": "provider-looks-at-own-class-only", "rule": "R14.22", "file": VU, "expect": "fire",
+     "old": "  for base in cls.mro:\n    if isinstance(base, mixin.LazyMembers):",
+     "new": "  for base in cls.mro[:1]:\n    if isinstance(base, mixin.LazyMembers):"},
     # lazily loaded members are not loaded before the membership test
-    {"name": "overrides-forgets-lazy-load", "rule": "R14.22", "file": VU, "expect": "fire",
-     "old": "      if isinstance(cls, mixin.LazyMembers):\n        cls.load_lazy_attribute(attr)\n      if (\n          isinstance(cls, abstract.SimpleValue)\n          and attr in cls.members",
-     "new": "      if (\n          isinstance(cls, abstract.SimpleValue)\n          and attr in cls.members"},
+    {"name": "provider-forgets-lazy-load", "rule": "R14.22", "file": VU, "expect": "fire",
+     "old": "    if isinstance(base, mixin.LazyMembers):\n      base.load_lazy_attribute(attr)\n    if (\n",
+     "new": "    if (\n"},
+    # the comparison is inverted
+    {"name": "overrides-same-provider-is-an-override", "rule": "R14.22", "file": VU,
+     "expect": "fire", "old": _OV_RET,
+     "new": "    return provider is not None and provider == _provider(supercls, attr)\n"},
     # the subclass test is dropped
     {"name": "overrides-without-subclass-test", "rule": "R14.22", "file": VU, "expect": "fire",
      "old": "  if subcls and supercls and supercls in subcls.mro:\n    subcls = _base(subcls)",
      "new": "  if subcls and supercls:\n    subcls = _base(subcls)"},
     # twins
-    {"name": "twin-overrides-slice-and-any", "rule": "R14.22", "file": VU, "expect": "silent",
-     "old": _LOOP_OLD,
-     "new": ("    before = subcls.mro[: subcls.mro.index(supercls)]\n"
-             "    for c in before:\n"
-             "      if isinstance(c, mixin.LazyMembers):\n"
-             "        c.load_lazy_attribute(attr)\n"
-             "    return any(\n"
-             "        isinstance(c, abstract.SimpleValue)\n"
-             "        and attr in c.members\n"
-             "        and bool(c.members[attr].bindings)\n"
-             "        for c in before\n"
-             "    )\n")},
-    {"name": "twin-overrides-guard-clause-helper", "rule": "R14.22", "expect": "silent",
-     "edits": [(VU, "def _overrides(subcls, supercls, attr):",
-                "def _defines(cls, attr):\n"
-                "  if isinstance(cls, mixin.LazyMembers):\n"
-                "    cls.load_lazy_attribute(attr)\n"
-                "  if not isinstance(cls, abstract.SimpleValue):\n"
-                "    return False\n"
-                "  return attr in cls.members and bool(cls.members[attr].bindings)\n\n\n"
-                "def _overrides(subcls, supercls, attr):"),
-               (VU, "  if subcls and supercls and supercls in subcls.mro:\n    subcls = _base(subcls)\n"
-                "    supercls = _base(supercls)\n" + _LOOP_OLD + "  return False\n",
-                "  if not subcls or not supercls or supercls not in subcls.mro:\n"
-                "    return False\n"
-                "  child, parent = _base(subcls), _base(supercls)\n"
-                "  for klass in child.mro:\n"
-                "    if klass == parent:\n"
-                "      return False\n"
-                "    if _defines(klass, attr):\n"
-                "      return True\n"
-                "  return False\n")]},
-    {"name": "twin-overrides-while-index", "rule": "R14.22", "file": VU, "expect": "silent",
-     "old": _LOOP_OLD,
-     "new": ("    i = 0\n"
-             "    while i < len(subcls.mro) and subcls.mro[i] != supercls:\n"
-             "      cls = subcls.mro[i]\n"
-             "      i += 1\n"
-             "      if isinstance(cls, mixin.LazyMembers):\n"
-             "        cls.load_lazy_attribute(attr)\n"
-             "      if not isinstance(cls, abstract.SimpleValue):\n"
-             "        continue\n"
-             "      if attr in cls.members and cls.members[attr].bindings:\n"
-             "        return True\n")},
-    # CPython's own formulation (method_is_overloaded): compare the providers
-    {"name": "twin-overrides-compares-providers", "rule": "R14.22", "expect": "silent",
-     "edits": [(VU, "def _overrides(subcls, supercls, attr):",
-                "def _provider(cls, attr):\n"
-                "  for c in cls.mro:\n"
-                "    if isinstance(c, mixin.LazyMembers):\n"
-                "      c.load_lazy_attribute(attr)\n"
-                "    if (\n"
-                "        isinstance(c, abstract.SimpleValue)\n"
-                "        and attr in c.members\n"
-                "        and c.members[attr].bindings\n"
-                "    ):\n"
-                "      return c\n"
-                "  return None\n\n\n"
-                "def _overrides(subcls, supercls, attr):"),
-               (VU, "    supercls = _base(supercls)\n" + _LOOP_OLD + "  return False\n",
-                "    supercls = _base(supercls)\n"
-                "    if subcls == supercls:\n"
-                "      return False\n"
-                "    mine = _provider(subcls, attr)\n"
-                "    return mine is not None and mine is not _provider(supercls, attr)\n"
-                "  return False\n")]},
+    {"name": "twin-provider-by-comprehension", "rule": "R14.22", "file": VU, "expect": "silent",
+     "old": _PROVIDER,
+     "new": ("def _provider(cls, attr):\n"
+             "  for base in cls.mro:\n"
+             "    if isinstance(base, mixin.LazyMembers):\n"
+             "      base.load_lazy_attribute(attr)\n"
+             "  defining = [\n"
+             "      b\n"
+             "      for b in cls.mro\n"
+             "      if isinstance(b, abstract.SimpleValue)\n"
+             "      and attr in b.members\n"
+             "      and b.members[attr].bindings\n"
+             "  ]\n"
+             "  return defining[0] if defining else None\n")},
+    {"name": "twin-overrides-guard-clauses-renamed-locals", "rule": "R14.22", "file": VU,
+     "expect": "silent", "old": _OV_BODY,
+     "new": ("  if not subcls or not supercls or supercls not in subcls.mro:\n"
+             "    return False\n"
+             "  child, parent = _base(subcls), _base(supercls)\n"
+             "  mine = _provider(child, attr)\n"
+             "  if mine is None:\n"
+             "    return False\n"
+             "  return mine != _provider(parent, attr)\n")},
+    {"name": "twin-provider-while-index", "rule": "R14.22", "file": VU, "expect": "silent",
+     "old": _PROVIDER,
+     "new": ("def _provider(cls, attr):\n"
+             "  i = 0\n"
+             "  while i < len(cls.mro):\n"
+             "    base = cls.mro[i]\n"
+             "    i += 1\n"
+             "    if isinstance(base, mixin.LazyMembers):\n"
+             "      base.load_lazy_attribute(attr)\n"
+             "    if not isinstance(base, abstract.SimpleValue):\n"
+             "      continue\n"
+             "    if attr in base.members and base.members[attr].bindings:\n"
+             "      return base\n"
+             "  return None\n")},
+    # the two provider scans written out inside _overrides, no helper
+    {"name": "twin-overrides-providers-inlined", "rule": "R14.22", "file": VU, "expect": "silent",
+     "old": ("    provider = _provider(subcls, attr)\n" + _OV_RET),
+     "new": ("    found = []\n"
+             "    for klass in (subcls, supercls):\n"
+             "      hit = None\n"
+             "      for base in klass.mro:\n"
+             "        if isinstance(base, mixin.LazyMembers):\n"
+             "          base.load_lazy_attribute(attr)\n"
+             "        if (\n"
+             "            isinstance(base, abstract.SimpleValue)\n"
+             "            and attr in base.members\n"
+             "            and base.members[attr].bindings\n"
+             "        ):\n"
+             "          hit = base\n"
+             "          break\n"
+             "      found.append(hit)\n"
+             "    return found[0] is not None and found[0] != found[1]\n")},
+    # rebased onto the repaired code; the original is patch.orig.diff
     {"name": "twin-benign-C14-r1", "rule": "R14.22", "patch": "benign/C14-r1/patch.diff",
      "expect": "silent"},
     # a predicate that consults something the class model does not have
-    {"name": "overrides-consults-unmodelled-state", "rule": "R14.22", "file": VU, "expect": "error",
-     "old": "      if cls == supercls:\n        break\n      if isinstance(cls, mixin.LazyMembers):",
-     "new": "      if cls == supercls or cls.is_dynamic:\n        break\n      if isinstance(cls, mixin.LazyMembers):"},
+    {"name": "provider-consults-unmodelled-state", "rule": "R14.22", "file": VU, "expect": "error",
+     "old": "        and base.members[attr].bindings\n    ):\n      return base\n",
+     "new": "        and base.members[attr].bindings\n        and not base.is_dynamic\n    ):\n      return base\n"},
 ]
